@@ -123,6 +123,14 @@ CHECKS = {
              "pairs and random wider ones next to the raw operator / std::sqrt / std::cbrt, sampled records judged by TLC.",
         note="int_pow on floating reps is compared to 4 ulps (the library multiplies repeatedly).  Unit definitions are inputs.",
         technique="TLC-decided denotations compiled as type assertions and accept/reject probes + raw-twin value sweep with TLC-validated records", ref="6/C14"),
+    "C19": dict(
+        text="Zero-operand actions of the type-state machine behave as the stored value 0 of the other operand's type (ZeroOps.tla).  A sweep "
+             "runs every comparison in both operand orders, q+ZERO, ZERO+q, q-ZERO, ZERO-q, initialisation and assignment from ZERO for 8 units "
+             "x 11 reps over all 8/16-bit values, boundary/random wider values and NaN/inf/-0.0/denormals; every disagreement with 'compare the "
+             "stored value with 0' and a sample of agreements is judged by TLC from the raw stored value; conversions of ZERO to 13 arithmetic "
+             "types and 4 chrono durations; 8 probes using ZERO where a QuantityPoint is required must be rejected (4 quantity twins compile).",
+        note="The specification part is small (sign/NaN classification); the strength is the exhaustive sweep.  ZERO - q at the most negative 32/64-bit value is raw UB and excluded.",
+        technique="contract sweep against 'stored value op 0' with records validated by TLC + failing probes with twins", ref="6/C19"),
 }
 
 
